@@ -167,6 +167,25 @@ def table_rule(repo, rule="R-TABLE"):
     return out, m
 
 
+def _ungated_registration(reg):
+    """None when every path of _register_hooks that performs a register_* call has decided `isinstance(module, <table keys>)` true;
+    otherwise the decisions of an offending path ('?' if paths cannot be enumerated)"""
+    from .. import equiv
+    try:
+        paths = equiv.path_facts(reg.node)
+    except equiv.TooManyPaths:
+        return "?"
+    seen = False
+    for p in paths:
+        effs = equiv.flatten_effects(p["effects"])
+        if not any(len(e) > 2 and e[1] == "call" and ".register_" in str(e[2]) for e in effs):
+            continue
+        seen = True
+        if not any(k.startswith("isinstance(module,") and "_NON_LINEAR_OPS" in k and v for k, v in p["decisions"].items()):
+            return p["decisions"]
+    return None if seen else "?"
+
+
 def hooks_rule(repo):
     out = []
     reg = repo.func(D + "._register_hooks")
@@ -176,8 +195,13 @@ def hooks_rule(repo):
     gate = [n for n in reg.node.body if isinstance(n, ast.If) and "isinstance(module, tuple(module._NON_LINEAR_OPS.keys()))" in unparse(n.test)]
     if kinds != ["register_forward_hook", "register_forward_pre_hook", "register_full_backward_hook"]:
         out.append(violation("HOOKS", reg, role, "registered hooks: %s" % kinds, reg.node))
-    elif not gate or unparse(gate[0].test) != "not isinstance(module, tuple(module._NON_LINEAR_OPS.keys()))" or not any(isinstance(b, ast.Return) for b in gate[0].body):
-        out.append(violation("HOOKS", reg, role, "registration is not gated by membership in the rule table", reg.node))
+    elif _ungated_registration(reg) is not None:
+        g = _ungated_registration(reg)
+        if g == "?":
+            out.append(unrecognised("HOOKS", reg, role, "paths of _register_hooks could not be enumerated", reg.node))
+        else:
+            out.append(violation("HOOKS", reg, role, "a path registers hooks without `isinstance(module, tuple(module._NON_LINEAR_OPS.keys()))` "
+                                 "being true: decisions %s" % g, reg.node, witness={"decisions": g}))
     else:
         m = {n.func.attr: unparse(n.args[0]) for n in walk_no_nested(reg.node) if isinstance(n, ast.Call) and isinstance(n.func, ast.Attribute) and n.func.attr.startswith("register_")}
         ok = m == {"register_forward_hook": "_f_hook", "register_forward_pre_hook": "_fp_hook", "register_full_backward_hook": "_b_hook"}
